@@ -1,3 +1,4 @@
+mod fsx;
 mod router;
 
 fn main() {
@@ -10,6 +11,7 @@ fn main() {
     let code = match args[1].as_str() {
         "router-replay" => router::cmd_replay(rest),
         "router-seq" => router::cmd_seq(rest),
+        "fs-export" => fsx::cmd_export(rest),
         other => {
             eprintln!("unknown subcommand {}", other);
             2
